@@ -87,4 +87,30 @@ theorem mem_run_log (s : State) (ps : List Prim) (r : LogRec) (h : r ∈ s.disk.
 theorem log_mono_prim (s : State) (p : Prim) (r : LogRec) (h : r ∈ s.disk.log) :
     r ∈ (applyPrim s p).disk.log := mem_run_log s [p] r h
 
+/-! ### Recover's validate loop -/
+
+/-- one entry of Recover's validate list: the duplicate branch or the validation -/
+theorem recoverValOne_cases (H : Body → String) (t : State) (now : Int) (x : Name × Cmp) :
+    (recoverDup t.mem x.1 x.2 = true ∧
+      recoverValOne H t now x = [Prim.rmFull x.1, Prim.rmCmp x.1, Prim.lockDel x.1]) ∨
+    (recoverDup t.mem x.1 x.2 = false ∧
+      recoverValOne H t now x = toCache t.mem x.1 (Entry.ofCmp x.2 .received) .received now ++
+        processCore H (run t (toCache t.mem x.1 (Entry.ofCmp x.2 .received) .received now)) x.1
+          { Entry.ofCmp x.2 .received with time := now } now) := by
+  unfold recoverValOne
+  cases h : recoverDup t.mem x.1 x.2 <;> simp
+
+/-- a Boolean property of primitives that the duplicate branch, `toCache … received` and
+    `processCore` have is a property of every entry of the validate list -/
+theorem recoverValOne_all (b : Prim → Bool) (H : Body → String) (t : State) (now : Int)
+    (x : Name × Cmp) (h1 : b (Prim.rmFull x.1) = true) (h2 : b (Prim.rmCmp x.1) = true)
+    (h3 : b (Prim.lockDel x.1) = true)
+    (h4 : (toCache t.mem x.1 (Entry.ofCmp x.2 .received) .received now).all b = true)
+    (h5 : (processCore H (run t (toCache t.mem x.1 (Entry.ofCmp x.2 .received) .received now)) x.1
+      { Entry.ofCmp x.2 .received with time := now } now).all b = true) :
+    (recoverValOne H t now x).all b = true := by
+  rcases recoverValOne_cases H t now x with ⟨_, h⟩ | ⟨_, h⟩ <;> rw [h]
+  · simp [h1, h2, h3]
+  · simp [h4, h5]
+
 end Sts.Stage
